@@ -329,6 +329,9 @@ def e2e_cases(draw, profile):
         'end': draw(ends(profile)),
         'sched': draw(schedules()),
         'hash_salt': draw(st.integers(0, 5)),
+        # write-buffer size of file handles (0 = unbuffered): data reaches
+        # the directory when the buffer fills, on seek, flush and close
+        'fs_buffer': draw(st.sampled_from([0, 0, 3, 64])),
     }
     if profile.get('latency') and draw(st.booleans()):
         # per-request network latency in virtual time (cycled by call id)
@@ -447,6 +450,7 @@ def pp_cases(draw):
     ioc = draw(st.sampled_from([None, None, 1, 2, 3, 5]))
     if ioc is not None:
         case['io_chunk'] = ioc
+    case['fs_buffer'] = draw(st.sampled_from([0, 0, 3, 64]))
     return case
 
 
